@@ -323,6 +323,25 @@ par%(u)s(n: SI): SI == {
     return d, [], "par%s(%d)" % (u, max(2, min(n, 4000)))
 
 
+def b_dyndom(u, rng, n):
+    """Domains created at run time (List T for growing T): the runtime's lazy domain
+    objects and its caches allocate and are kept alive across collections."""
+    d = '''
+dyd%(u)s(n: SI, T: BasicType, x: T): SI == {
+	n = 0 => 1;
+	import from List T;
+	l: List T := [x, x];
+	#l + dyd%(u)s(n - 1, List T, l)
+}
+dyn%(u)s(n: SI): SI == {
+	s: SI := 0;
+	for i: SI in 1..n repeat s := (s + dyd%(u)s(i rem %(k)d, SI, i)) rem %(M)d;
+	s
+}
+''' % dict(u=u, k=rng.range(3, 9), M=M)
+    return d, [], "dyn%s(%d)" % (u, max(2, min(n, 400)))
+
+
 def b_chain(u, rng, n):
     """A long chain of cells linked through a field that is NOT the last word of the cell
     (the marker cannot follow it by tail call): deep marker recursion."""
@@ -399,7 +418,7 @@ BLOCKS = [("list", b_list, 4), ("record", b_record, 4), ("node", b_node, 2), ("c
           ("generator", b_generator, 2), ("bigint", b_bigint, 3), ("string", b_string, 2), ("table", b_table, 2),
           ("array", b_array, 3), ("domain", b_domain, 1),
           ("exn", b_exn, 2), ("union", b_union, 2), ("float", b_float, 1), ("tokens", b_tokens, 1),
-          ("deeprec", b_deeprec, 2), ("ptrarray", b_ptrarray, 2),
+          ("deeprec", b_deeprec, 2), ("ptrarray", b_ptrarray, 2), ("dyndom", b_dyndom, 2),
           ("frag", b_frag, 0), ("chain", b_chain, 0)]	# weight 0: only when forced (expensive)
 
 
